@@ -22,7 +22,7 @@ from .c08 import _arm
 ATOMS = {
     "self.is_empty()": "SE", "other.is_empty()": "OE", "self.is_nullable()": "SN", "other.is_nullable()": "ON", "other.is_null()": "ONULL",
     "self.variant.is_superset_of(&other.variant,ctx,pos)": "V",
-    "(self.variant==other.variant)": "E",
+    "(self.variant==other.variant)": "E", "(other.variant==self.variant)": "E",     # (the facts are normalised: sides of == in text order)
 }
 # implications between atoms that hold by construction (a valuation violating one cannot occur)
 IMPLICATIONS = [("E", "V", "a class accepts itself (has_parent is reflexive: R-C20-2)")]
